@@ -15,7 +15,7 @@ OUTSIDE = ["more than 3 contests; district-level contests (office H/Y/Z use (sta
            "B above the bound"]
 BOUNDS = {"quick": "2 contests (states) x every combination of {not called, called left, called right, called both} x {stop-listed or not}, "
                    "plus an unknown contest name; B = 2 draws, 2 levels; arbitrary margin draws (every sign of prediction and bounds); "
-                   "3 contests with one contest ranging over all 8 states; a fully reported contest (no outstanding unit)",
+                   "a fully reported contest (no outstanding unit); a contest without any counted vote (0/0 margin)",
           "thorough": "3 contests, all 512 combinations; B = 3"}
 OPTS = {"quick": dict(case_timeout_s=900, solver_timeout_ms=30000, max_paths=100000),
         "thorough": dict(case_timeout_s=3300, solver_timeout_ms=60000, max_paths=1000000)}
@@ -46,6 +46,15 @@ def cases(tier):
         for sb in range(2):
             out.append(dict(name="fully_reported_%s%d" % (CALL[cb], sb), states=["AA", "BB"], fixed={"AA": (0, 0), "BB": (cb, sb)},
                             B=2, alphas=[0.9], units=us, aggregates=["postal_code", "unit"], weight=5))
+    # a contest without a single counted two-party vote (uncontested, or nothing in yet): its units are passed through
+    # (zero turnout factor), its predicted turnout is 0 and its raw margin 0/0
+    zs = copy.deepcopy(BS.margin_units(10, 1, 0, states=("AA",))) + [
+        P.U("BBz%d" % i, "strange", state="BB", county="BBc1", cls="k1", pev=100, base=dict(turnout=900 + i, dem=400, gop=300),
+            res=dict(turnout=0, dem=0, gop=0)) for i in range(2)]
+    for cb in range(3):
+        for sb in range(2):
+            out.append(dict(name="zero_votes_contest_%s%d" % (CALL[cb], sb), states=["AA", "BB"], fixed={"AA": (0, 0), "BB": (cb, sb)},
+                            B=2, alphas=[0.9], units=zs, aggregates=["postal_code", "unit"], weight=5))
     for which in range(3):
         out.append(dict(name="unknown_contest_%d" % which, states=["AA", "BB"], fixed={"AA": (0, 0), "BB": (1, 0)}, unknown=which,
                         B=2, alphas=[0.9], units=two, aggregates=["postal_code", "unit"], weight=5))
